@@ -292,15 +292,19 @@ Proof.
   induction l as [|x t IH]; cbn; [reflexivity|]. destruct (v =? vid x)%N; auto.
 Qed.
 
-Lemma prune_ok s : inv s ->
-  exists m, prune true s = Ok (with_mets (with_vols s (map (pvol (refd s)) (vols s))) m).
+Lemma prune_with_ok f s : inv s ->
+  exists m, prune_with f s = Ok (with_mets (with_vols s (map (pvol f) (vols s))) m).
 Proof.
-  intros I. unfold prune, prune_with. cbn [negb].
-  destruct (prune_vols_total (refd s) (vols s) (inv_vol s I)) as [n [P Hn]].
+  intros I. unfold prune_with.
+  destruct (prune_vols_total f (vols s) (inv_vol s I)) as [n [P Hn]].
   rewrite P. cbn [bind]. unfold stat_inc. rewrite (inv_phys s I).
   destruct (- n =? 0); cbn [bind]; [eexists; reflexivity|].
   replace (gsum vused (vols s) + - n <? 0) with false by lia. cbn [bind]. eexists; reflexivity.
 Qed.
+
+Lemma prune_ok s : inv s ->
+  exists m, prune true s = Ok (with_mets (with_vols s (map (pvol (refd s)) (vols s))) m).
+Proof. intros I. unfold prune. cbn [negb]. now apply prune_with_ok. Qed.
 
 Lemma refd_after_expiry h r (cs : list contract) (ts : list (N * N)) :
   existsb (fun c => mem r (croots c))
